@@ -210,7 +210,11 @@ async def scenario(sh: Shard, rig, r, label, ncmd):
                     await run_cmd(desc, call, {"verb": "KEY", "key": key, "readback": lambda d=dev: bool(d.is_on), "readback_ok": lambda v, w_=want_on: v == w_})
         elif k == "watercare":
             mode = r.randrange(0, 5)
-            arg = mode if r.random() < 0.5 else facade.water_care.modes[mode]
+            names = facade.water_care.modes
+            if not isinstance(names, (list, tuple)) or len(names) < 5:
+                sh.violation("C13:watercare-modes", f"facade.water_care.modes is {names!r}: the five mode names a command can be given by are not offered", {"scenario": label})
+                continue
+            arg = mode if r.random() < 0.5 else names[mode]
             await run_cmd(("watercare.set_mode", arg), facade.water_care.async_set_mode(arg), {"verb": "SETWC", "mode": mode})
         elif k == "temp" and heater.is_present and "SetpointG" in refs:
             units = refs["TempUnits"].decode(spa.struct.status_block)
